@@ -1310,8 +1310,8 @@ func execC19StalledNeighbour(c *child.Ctx, k proxyCase, cj []byte) {
 	c.Count("calls_relayed_while_another_call_was_held_up_by_its_server", 1)
 }
 
-// execC19IdleServer: a caster that hangs up on connections that stay silent for 300 ms
-// (casters do), and two calls through the proxy with a pause of 0.9 s between them.
+// execC19IdleServer: a caster that hangs up on connections that stay silent for 1.5 s
+// (casters do), and two calls through the proxy with a pause of 3 s or 5 s between them.
 // Whatever the proxy prepared during the pause, what the second client sends reaches
 // the server.
 func execC19IdleServer(c *child.Ctx, k proxyCase, cj []byte) {
@@ -1328,6 +1328,7 @@ func execC19IdleServer(c *child.Ctx, k proxyCase, cj []byte) {
 	var mu sync.Mutex
 	var received [][]byte
 	idleClosed := 0
+	var lastIdleAccept time.Time // when the latest connection that was later dropped as idle had been accepted
 	go func() {
 		for {
 			conn, err := p.upstream.Accept()
@@ -1336,6 +1337,7 @@ func execC19IdleServer(c *child.Ctx, k proxyCase, cj []byte) {
 			}
 			go func(conn net.Conn) {
 				defer conn.Close()
+				acceptedAt := time.Now()
 				mu.Lock()
 				idx := len(received)
 				received = append(received, nil)
@@ -1344,7 +1346,7 @@ func execC19IdleServer(c *child.Ctx, k proxyCase, cj []byte) {
 				first := true
 				for {
 					if first {
-						conn.SetReadDeadline(time.Now().Add(300 * time.Millisecond))
+						conn.SetReadDeadline(time.Now().Add(1500 * time.Millisecond))
 					} else {
 						conn.SetReadDeadline(time.Now().Add(30 * time.Second))
 					}
@@ -1360,6 +1362,9 @@ func execC19IdleServer(c *child.Ctx, k proxyCase, cj []byte) {
 						if first {
 							mu.Lock()
 							idleClosed++
+							if acceptedAt.After(lastIdleAccept) {
+								lastIdleAccept = acceptedAt
+							}
 							mu.Unlock()
 						}
 						return
@@ -1402,6 +1407,7 @@ func execC19IdleServer(c *child.Ctx, k proxyCase, cj []byte) {
 		return
 	}
 	sleepTicking(time.Duration(k.StallMs) * time.Millisecond)
+	secondCallBegan := time.Now()
 	c2, ok := call(d2)
 	if c2 != nil {
 		defer c2.Close()
@@ -1415,9 +1421,19 @@ func execC19IdleServer(c *child.Ctx, k proxyCase, cj []byte) {
 		<-p.exited
 		mu.Lock()
 		idle := idleClosed
+		// (only if the proxy made exactly one upstream connection per call: with more, the
+		// dropped one need not be the second call's)
+		late := lastIdleAccept.After(secondCallBegan) && len(received) == 2
 		mu.Unlock()
+		if late {
+			// the server dropped, as idle, a connection that the proxy made FOR the second
+			// call: the proxy took more than 1.5 s from dialling to its first byte - the
+			// machine, not the proxy's logic
+			c.Inconclusive("the proxy needed more than 1.5 s between dialling the server and relaying the first byte of the second call")
+			return
+		}
 		if dump := p.fullStderr(); proxyAllBlocked(dump) || clientGoroutineWaitingForInput(dump) {
-			c.Violate("client-to-server-differs", fmt.Sprintf("second call, %d ms after the first: the client sent %d bytes and in 20 s the server received them on none of its connections; the proxy's goroutine for the client's data has taken them all and is waiting for more, so they never will arrive (the server had hung up on %d connection(s) that stayed silent for 300 ms)", k.StallMs, len(d2), idle), cj)
+			c.Violate("client-to-server-differs", fmt.Sprintf("second call, %d ms after the first: the client sent %d bytes and in 20 s the server received them on none of its connections; the proxy's goroutine for the client's data has taken them all and is waiting for more, so they never will arrive (the server had hung up on %d connection(s) that stayed silent for 1.5 s, all of them made before the second call began)", k.StallMs, len(d2), idle), cj)
 		} else {
 			c.Inconclusive("second call not relayed within 20 s without a logical explanation")
 		}
@@ -1730,7 +1746,7 @@ func monC19(c *child.Ctx, replay json.RawMessage) {
 		c.Eval(ref.Hash64(cj), true)
 	}
 	if (c.Batch == 3 || c.Batch == 4 || c.Thorough() && c.Batch%8 >= 3 && c.Batch%8 <= 4) && c.NViolations() == 0 {
-		k := proxyCase{ID: c.Batch*10000 + 9570, Kind: "idleserver", Seed: r.Uint64() >> 1, StallMs: []int{900, 2500}[c.Batch%2]}
+		k := proxyCase{ID: c.Batch*10000 + 9570, Kind: "idleserver", Seed: r.Uint64() >> 1, StallMs: []int{3000, 5000}[c.Batch%2]}
 		cj := c.BeginV(k)
 		execC19IdleServer(c, k, cj)
 		c.Eval(ref.Hash64(cj), true)
